@@ -116,6 +116,30 @@ var scenarios = []scenario{
 		s.opRestart()
 		s.opLookup(s.root(), "src")
 	}},
+	{"a refused rename, the old name again, listings", func(s *seqRun) {
+		// (round 14, C13n) RENAME removes the old name before it finds that the new one cannot be added; the request fails and
+		// its transaction aborts.  Nothing of it may survive: the old name is still there (a second CREATE is refused) and
+		// every page size lists each name exactly once, before and after a removal
+		d := s.mk("mkdir", s.root(), "frn")
+		if d == nil {
+			return
+		}
+		for _, n := range []string{"a", "b", "c"} {
+			s.mk("create", d, n)
+		}
+		s.opRename(d, "a", d, strings.Repeat("q", 113))
+		s.opCreate("create", d, "a", 0, nil)
+		for _, c := range []uint32{1, 200, 65536} {
+			s.opReaddir(d, 0, c)
+		}
+		for _, c := range []uint32{1, 600, 65536} {
+			s.opReaddirplus(d, 0, c, c)
+		}
+		s.opRemove("remove", d, "a")
+		s.opReaddir(d, 0, 65536)
+		s.opReaddirplus(d, 0, 65536, 65536)
+		s.opLookup(d, "a")
+	}},
 	{"removed parent directory goes away", func(s *seqRun) {
 		a := s.mk("mkdir", s.root(), "a")
 		s.mk("mkdir", a, "b")
@@ -742,6 +766,68 @@ var scenarios = []scenario{
 		if n != nil {
 			s.opRead(n, 0, 4096)
 		}
+	}},
+	{"another client's request inside the abort of a failing request", func(s *seqRun) {
+		// (round 14, C09n) RENAME a/x -> b/<113 bytes> removes "x" from a's cached directory before it finds that the new
+		// name cannot be added; it fails and aborts.  The abort gives the locks back one by one: once a's lock is free another
+		// client may get in, while the failing request is still inside its abort.  What that client sees must be the state
+		// before the RENAME — CREATE a/x is refused (EXIST) — so the cached inodes the failing request changed must be
+		// forgotten BEFORE its locks are given back.  The other client's request is issued from the hook at the first lock
+		// release AFTER a's (the order of the releases is not fixed: the round is repeated until that happened, at most 8 times).
+		old := fstxn.VerifObserver
+		var hook func(kind string, arg uint64)
+		fstxn.VerifObserver = func(kind string, op *fstxn.FsTxn, arg uint64) {
+			if old != nil {
+				old(kind, op, arg)
+			}
+			if h := hook; h != nil && curGid() == atomic.LoadUint64(&seqMainGid) {
+				h(kind, arg)
+			}
+		}
+		defer func() { fstxn.VerifObserver = old }()
+		inWindow := 0
+		for round := 0; round < 8 && inWindow < 2 && !s.dead; round++ {
+			a := s.mk("mkdir", s.root(), fmt.Sprintf("abA%d", round))
+			b := s.mk("mkdir", s.root(), fmt.Sprintf("abB%d", round))
+			if a == nil || b == nil {
+				return
+			}
+			s.mk("create", a, "x")
+			s.mk("create", a, "y")
+			aborted, aFree, fired := false, false, false
+			other := func() {
+				fired = true
+				hook = nil
+				main := atomic.LoadUint64(&seqMainGid)
+				// (the failing request still holds locks: no tree dumps or images from inside its abort)
+				c09, due, inl := s.c09, s.fsckDue, s.inline
+				s.c09, s.fsckDue, s.inline = false, false, true
+				s.opCreate("create", a, "x", 0, nil) // the other client
+				s.opLookup(a, "x")
+				s.c09, s.fsckDue, s.inline = c09, due, inl
+				atomic.StoreUint64(&seqMainGid, main)
+			}
+			hook = func(kind string, arg uint64) {
+				switch {
+				case kind == "abort":
+					aborted = true
+				case kind == "rel" && aborted && !fired && aFree:
+					inWindow++
+					other() // a's lock is free, the lock of `arg` is about to be released, the abort is not over
+				case kind == "rel" && aborted && arg == inumOf(a):
+					aFree = true // (the event precedes the release itself: act at the next event)
+				case kind == "abort-end" && aborted && !fired:
+					other()
+				}
+			}
+			s.opRename(a, "x", b, strings.Repeat("n", 113))
+			hook = nil
+			s.opLookup(a, "x")
+			s.opReaddir(a, 0, 65536)
+			s.opRemove("remove", a, "x")
+			s.opReaddir(a, 0, 65536)
+		}
+		s.hist[fmt.Sprintf("in-abort-window:%d", inWindow)]++
 	}},
 	{"a WRITE at the end of a file whose truncation is still pending", func(s *seqRun) {
 		// (round 13, C03m) SETATTR to 0 of a large file is acknowledged with the freeing left to the background shrinker, which is
